@@ -389,6 +389,120 @@ impl SubCheck for Connections {
 	}
 }
 
+// ---------------------------------------------------------------------------------------------
+// sessions the server gives up on its own (ping inactivity)
+// ---------------------------------------------------------------------------------------------
+
+/// The server measures ping inactivity with `std::time::Instant`, which the paused tokio clock does not move. The
+/// ping *interval* is a tokio timer, though, so a history can be made deterministic in the one direction that
+/// matters here: every WebSocket peer of the case is silent (it stops reading, so it never answers a ping), the
+/// inactivity limit is 1 ms of real time, the harness really sleeps 3 ms and then lets the paused clock run over
+/// hundreds of ping intervals. Each silent session has then been given up by the server, whatever it had in flight.
+#[derive(Clone, Debug, Serialize, Deserialize)]
+pub struct GiveUpCase {
+	pub limit: u32,
+	pub max_failures: u8,
+	/// per silent session: number of calls left in flight on it, and whether a subscription is open on it
+	pub sessions: Vec<(u8, bool)>,
+	pub http_gated: bool,
+	pub via_set_http_middleware: bool,
+	pub lowlevel: bool,
+}
+
+pub struct GiveUp;
+
+impl SubCheck for GiveUp {
+	type Case = GiveUpCase;
+	fn name(&self) -> &'static str {
+		"given-up-for-inactivity"
+	}
+	fn cases(&self, tier: Tier) -> u32 {
+		tier.pick(4_000, 80_000)
+	}
+	fn strategy(&self, _tier: Tier) -> BoxedStrategy<GiveUpCase> {
+		(1u32..4, 1u8..4, proptest::collection::vec((0u8..3, proptest::bool::weighted(0.3)), 1..4), any::<bool>(), proptest::bool::weighted(0.3), proptest::bool::weighted(0.3))
+			.prop_map(|(limit, max_failures, sessions, http_gated, via_set_http_middleware, lowlevel)| GiveUpCase { limit, max_failures, sessions, http_gated, via_set_http_middleware, lowlevel })
+			.boxed()
+	}
+	fn run(&self, case: &GiveUpCase, obs: &mut Obs) {
+		let rt = rt();
+		rt.block_on(async {
+			let fix = Fixture::new(Cfg { max_connections: case.limit, ping_fine: Some((10, 1, case.max_failures as usize)), via_set_http_middleware: case.via_set_http_middleware, ..Cfg::default() });
+			let mut w = W11 { fix, limit: case.limit as usize, http: vec![], ws: vec![], tokens: 0, silent: vec![], ping: true, fails: vec![], reached_limit: 0, abnormal_exits: 0, ws_enabled: true, http_enabled: true };
+			if case.http_gated && case.limit >= 2 {
+				w.step(&K::HttpGated).await;
+			}
+			let mut in_flight = 0;
+			let mut tokens = vec![];
+			for (calls, sub) in &case.sessions {
+				if w.in_use() + w.silent.len() >= w.limit {
+					break;
+				}
+				let opened = if case.lowlevel { w.fix.ws_lowlevel().await } else { w.fix.ws().await };
+				let Ok(mut ws) = opened else {
+					w.fails.push(("c11/attempt-below-limit-refused".into(), format!("session with {} in use (limit {}) refused", w.in_use() + w.silent.len(), w.limit)));
+					break;
+				};
+				if *sub {
+					let _ = ws.send_text(r#"{"jsonrpc":"2.0","id":"s","method":"sub_a"}"#).await;
+					settle().await;
+					if let Some(a) = w.fix.ctx.actors.lock().last() {
+						let (atx, _arx) = tokio::sync::oneshot::channel();
+						let _ = a.tx.send((Cmd::Accept, atx));
+					}
+				}
+				// the peer stops reading: no pong is ever sent from here on
+				ws.read_gate.pause();
+				for _ in 0..*calls {
+					w.tokens += 1;
+					let token = format!("q{}", w.tokens);
+					let _ = ws.send_text(&format!(r#"{{"jsonrpc":"2.0","id":1,"method":"gated_async","params":["{token}"]}}"#)).await;
+					tokens.push(token);
+					in_flight += 1;
+				}
+				settle().await;
+				w.silent.push(ws);
+			}
+			let n_silent = w.silent.len();
+			// real time passes (the inactivity limit is 1 ms), then hundreds of ping intervals of the paused clock
+			std::thread::sleep(std::time::Duration::from_millis(3));
+			settle().await;
+			settle().await;
+			// every silent session has been given up: only the gated HTTP request still holds a slot
+			w.probe(&format!("{n_silent} silent session(s) with {in_flight} call(s) in flight were given up for inactivity")).await;
+			if w.fails.is_empty() {
+				// ... and the limit can be reached again (with HTTP requests: a fresh WebSocket session would itself be
+				// judged against the 1 ms limit)
+				while w.in_use() < w.limit {
+					w.step(&K::HttpGated).await;
+					if !w.fails.is_empty() {
+						break;
+					}
+				}
+				if w.fails.is_empty() {
+					w.probe("refilling to the limit after the give-up").await;
+				}
+			}
+			for t in &tokens {
+				w.fix.ctx.gates.release(t);
+			}
+			if in_flight > 0 && n_silent > 0 {
+				obs.nontrivial();
+				obs.class("given-up-with-calls-in-flight");
+			}
+			if case.sessions.iter().any(|s| s.1) {
+				obs.class("given-up-with-subscription");
+			}
+			obs.class(format!("max-failures:{}", case.max_failures));
+			for (s, d) in w.fails.drain(..) {
+				obs.fail(s, format!("{d}; case={case:?}"));
+			}
+			w.fix.ctx.gates.release_all();
+			settle().await;
+		});
+	}
+}
+
 pub fn long_cycles(tier: Tier) -> Vec<C11Case> {
 	let n = tier.pick(200u8, 250);
 	let mut v = vec![];
@@ -410,10 +524,11 @@ pub fn check(ctx: &mut Ctx) {
 	let cyc = long_cycles(ctx.tier);
 	ctx.run_cases_parallel(&Connections, cyc, 16);
 	ctx.run_sub(&Connections);
+	ctx.run_sub(&GiveUp);
 }
 
 pub fn replay(file: &serde_json::Value) -> Option<i32> {
-	replay_with(&Connections, file, "C11")
+	replay_with(&Connections, file, "C11").or_else(|| replay_with(&GiveUp, file, "C11"))
 }
 
 #[allow(dead_code)]
